@@ -325,6 +325,13 @@ func (s *Sim) root(body func(*Sim)) {
 	s.loop()
 	s.elapsedSnap()
 	s.shutdown()
+	// every task of this run has ended: what they did happens-before whatever the
+	// worker's goroutine starts next (the next run).  Without this edge package-
+	// level state of the code under test, touched in two consecutive runs, is
+	// reported as a race between them - a report no single run can reproduce
+	raceOn()
+	raceAcquire(unsafe.Pointer(&s.joinTok))
+	raceOff()
 }
 
 var zeroTime time.Time
